@@ -53,6 +53,44 @@ Rare classes counted as strata (`stratum:*`, `hp:*`, `wrose:*` counters in evide
 leap, year-wrapping, overnight and st>0..23 windows, single-datum and single-day plots, immutable twins of
 the inputs, discontinuous wind data with 1-5 samples, all-calm wind data, direction counts 1..36, zero /
 negative / reversed axis ranges of bar charts, IP / daily / sub-hourly / constant-input psychrometric charts.
+
+Round 4 (input shapes, aliasing / one-shot iterables, conventions, numeric edges, rare branches)
+------------------------------------------------------------------------------------------------
+The model and the oracle describe windrose.py WITH fixes/C17_windrose_default_hours_cut.patch (histogram_data cuts
+with int(frequency_maximum)); until that patch is committed the TypeError of the unrepaired slice is reported
+under the finding C17-windrose-default-hours-cut (by the oracle AND by the whist correspondence, which maps a
+model/code difference that is exactly this TypeError onto the finding's signature instead of a broken tie).
+Classes closed (generator strata + oracle clauses; Lean: Proofs/C17Shape.lean and 8 new theorems):
+  (i) hand-over shapes: collections that are NOT validated and whose date-times come shuffled / reversed / in
+      calendar order for a wrapped period / afternoons first (HourlyPlot, WindRose, MonthlyChart validate them
+      themselves); values and date-times as tuples; periods built by AnalysisPeriod.from_string (plain, upper case
+      with doubled blanks and two-digit fields, repr round trip), from_dict, string arguments; psychrometric constants
+      and dimensions as text ('5e1', ' 37.5 ', '+100').  The oracle places datum i by the date-time the INPUT gives it.
+  (f) aliasing / one-shot iterables: histogram / histogram_circular values as tuple, generator, iter(), map, zip;
+      MonthlyChart collections as tuple / generator / iter / map; every returned list edited in place and the
+      question asked again; a second object of the same data in the same process must agree.
+  (g) conventions: monthly, daily, monthly-per-hour and hourly charts over periods that WRAP the year end (month
+      number != column); columns tied to the chart's own month_labels; new oracle op `mlines` (data_polylines and
+      hourly bands of MonthlyChart: column, hour offset, affine height of the data / mean line).
+  (h) numeric edges: all 12 timesteps at the far end of the year (HP_FAR_END), non-dyadic / 1e-3 / 1e6 cell sizes
+      and offsets, values and edges scaled by 2^-40 / 2^53, mirrored negative histograms, directions many turns
+      away, humidities 2^-40 / 2^53.
+  (e) every concrete class: continuous / discontinuous / immutable twins (HourlyPlot, WindRose), Monthly / Daily /
+      MonthlyPerHour / Hourly collections (MonthlyChart), Hourly continuous + discontinuous / Daily / constants
+      (PsychrometricChart); HourlyPlot.from_z_dim_per_unit + colored_mesh3d against colored_mesh2d.
+  (j) branches of the anchored functions, each counted as `branch:*` in evidence:
+      hourlyplot: __init__ validates itself | _num_x reversed | _num_y whole day / window / overnight | face pattern
+      plain / reversed (t_diff both forms) | m_aper of an overnight window | per-day reversal of values / colors |
+      z_dim != 0 (height field, through from_z_dim_per_unit);
+      histogram: below first edge | at / above last edge | search loop falls through (non-monotone edges);
+      histogram_circular: hist_range None | outside the range | plain bin | bin wrapping the range end;
+      windrose: calm filter on / off | histogram_data uncut / cut with assigned hours / cut with DEFAULT hours |
+      prevailing cached / computed, ties;  monthlychart: bars cumulative / from the base line | negative cumulative
+      bar (bar_y_low) | daily month change | axis range from LegendParameters (0 is a value) | ignored index;
+      psychchart: hour off the chart | humidity loop falls through (rh >= 100) | temperature loop falls through
+      (t == max) | IP categories | constant input.
+      Not reached through this harness: the sign-split ('+/-') branches of stacked cumulative hourly / monthly-per-
+      hour bands (only non-cumulative temperature data is drawn as lines), hour / month label geometry.
 """
 import contextlib
 import io
@@ -69,7 +107,7 @@ from harness.core import compare_batch, err_name, run_oracle_cases
 
 PROP = 'C17'
 PROOF_MODULES = ['Ladybug.Props.C17']
-GREP_MODULES = ['Ladybug.Model.Plot', 'Ladybug.Model.PlotObj', 'Ladybug.Proofs.C17Obj', 'Ladybug.Proofs.C17Lemmas', 'Ladybug.Proofs.C17Hist', 'Ladybug.Proofs.C17Bars',
+GREP_MODULES = ['Ladybug.Model.Plot', 'Ladybug.Model.PlotObj', 'Ladybug.Proofs.C17Obj', 'Ladybug.Proofs.C17Shape', 'Ladybug.Proofs.C17Lemmas', 'Ladybug.Proofs.C17Hist', 'Ladybug.Proofs.C17Bars',
                 'Ladybug.Proofs.C17Rev', 'Ladybug.Drv.C17', 'Ladybug.Model.AP',
                 'Ladybug.Model.Cal', 'Ladybug.Py', 'Ladybug.DrvCore']
 RULE = ('correspondence: hourly plots over analysis periods (partial, year-wrapping, hour windows incl. overnight '
@@ -81,7 +119,10 @@ RULE = ('correspondence: hourly plots over analysis periods (partial, year-wrapp
         'psychrometric charts (SI) with hours on cell edges and outside the chart.  oracle: the statement '
         'evaluated on the real objects (face centroid/colour vs day column and time row of the datum, sector '
         'membership by modular arithmetic on Fractions, bin edges, bar columns and affine heights, cell counts '
-        'by brute force).  Round 3: operation histories on one WindRose / MonthlyChart / PsychrometricChart / '
+        'by brute force; lines / bands of hourly and monthly-per-hour charts).  Round 4: the same data handed over '
+        'unvalidated in other orders, as tuples / generators / iter / map objects, with periods built from text; periods '
+        'that wrap the year end for every chart; all 12 timesteps at the far end of the year; magnitudes 2^-40 .. 2^53; '
+        'returned containers edited in place and second objects in the same process.  Round 3: operation histories on one WindRose / MonthlyChart / PsychrometricChart / '
         'HourlyPlot (reads in random order and repeated, every setter, refused calls, final sweep) compared step '
         'by step with the Lean object state machines and judged by the oracle against the public state '
         'established so far; a slice of the oracle stream re-run in 3-4 fresh interpreters in different orders '
@@ -101,9 +142,11 @@ TRUSTED_BASE = [
 ]
 ASSUMPTIONS = [
     'the three C17 fix commits (259e666, 9d435cd, 0d57465) are in the checked tree',
+    'fixes/C17_windrose_default_hours_cut.patch describes the intended behaviour of WindRose.histogram_data (cut with an '
+    'integer bound); on a tree without it the TypeError is reported as finding C17-windrose-default-hours-cut',
     'psychrometric chart: SI only in the model (IP temperature categories are float-accumulated; oracle only)',
 ]
-LEVEL_TEXT = ('Machine-checked Lean 4 theorems (33) over an executable model of the data placement of HourlyPlot, '
+LEVEL_TEXT = ('Machine-checked Lean 4 theorems (40) over an executable model of the data placement of HourlyPlot, '
               'histogram/histogram_circular, WindRose, MonthlyChart bars and PsychrometricChart cells, for all inputs '
               'of each clause: the hourly mesh of a non-wrapping period (any hour window incl. overnight, all 12 '
               'timesteps, leap or not; continuous, windowed and sparse data; y axis normal and reversed) has one face '
@@ -116,7 +159,12 @@ LEVEL_TEXT = ('Machine-checked Lean 4 theorems (33) over an executable model of 
               'state (WindRose, PsychrometricChart, MonthlyChart) an object state machine with the lazy slots of the '
               'code is modelled and it is proved that after ANY operation history (reads in any order, setters, '
               'refused calls) every answer is that of a fresh object built from the public state established so far, '
-              'that refused calls change nothing and that reads are pure and commute. The model is compared '
+              'that refused calls change nothing and that reads are pure and commute. Round 4: the order in which an '
+              'unvalidated collection is handed over is proved irrelevant (validation restores the chronological list the '
+              'cell theorems speak about), the column of a month in a chart that wraps the year end is its distance from '
+              'the start month modulo 12, the fall-through branches of the psychrometric loops put saturated air in the '
+              'top row and the maximum temperature in the last column, and the cut of histogram_data never raises. '
+              'The model is compared '
               'with the real classes (mesh faces, centroids, values, bins, bar vertices, cell counts) on '
               'boundary-biased generated inputs on every run, and the whole statement is evaluated on the real objects '
               'by an independent oracle; operation histories on one object are compared step by step and a slice of '
@@ -128,8 +176,10 @@ LEVEL_NOTE = ('Trusted: Lean kernel; axioms propext/Classical.choice/Quot.sound 
               'of the period). NOT proved, only compared and oracle-checked: year-wrapping periods of the hourly plot, '
               'the IP psychrometric chart, histogram_circular with hist_range=None, bar_count staying below the '
               'horizontal bar count (hypothesis of the column theorems), the drawing geometry of the wind rose '
-              '(colored_mesh, lines: only touched inside histories). Three open findings are listed in '
-              'known_findings.d/C17.json.')
+              '(colored_mesh, lines: only touched inside histories), the lines and bands of hourly / monthly-per-hour '
+              'MonthlyCharts (oracle op mlines). Model and oracle describe windrose.py with '
+              'fixes/C17_windrose_default_hours_cut.patch; until it is committed that defect is reported as a known '
+              'finding. Three open findings are listed in known_findings.d/C17.json.')
 TECHNIQUE = ('Lean 4 proof (list induction, sorted-list uniqueness on the C04 characterisation of moys, omega, linarith) about '
              'a hand model tied to the plot classes by differential correspondence on mesh faces and bins')
 
@@ -278,9 +328,76 @@ def _hp_case(rng, cont=None):
     c = {'cont': cont, 'rev': rng.random() < 0.5, 'ap': ap, 'moys': moys,
          'xdim': rng.choice([1, 2, 0.5, 3]), 'ydim': rng.choice([4, 1, 0.25, 2]),
          'base': [rng.choice([0, 0, 10, -7]), rng.choice([0, 0, -3, 100])]}
+    if rng.random() < 0.1:                        # (h) non-dyadic, very small / large cells and offsets
+        c.update(xdim=rng.choice([0.3, 0.001, 1e6, 7]), ydim=rng.choice([0.1, 1e-3, 1e5]),
+                 base=[rng.choice([0.1, 1e6 + 0.3, -0.7]), rng.choice([1e-3, -1e5 - 0.1])])
     if rng.random() < 0.2:
         c['imm'] = True                           # the immutable twin of the collection
+    _hp_forms(rng, c)
     return c
+
+
+HP_ORDERS = ('shuffled', 'reversed', 'calendar', 'afternoon-first', 'sorted')
+AP_FORMS = ('string', 'string-spaced', 'dict', 'strargs', 'repr')
+
+
+def _hp_forms(rng, c, force=None):
+    """Round 4 (kinds i, f): the same data handed over in other SHAPES.  `hand`: the collection is not yet
+    validated (HourlyPlot validates it itself) and its date-times come in another order than the period's
+    (`order`: permutation, hand-over position -> index in c['moys']); `seq`: container type of values / date-times;
+    `apform`: how the AnalysisPeriod was built (text forms, string arguments, dictionary)."""
+    ap = c['ap']
+    if not c['cont'] and ap[2] <= ap[5] and len(c['moys']) >= 1 and (force or rng.random() < 0.3):
+        n = len(c['moys'])
+        kind = force if force in HP_ORDERS else rng.choice(HP_ORDERS)
+        idx = list(range(n))
+        if kind == 'shuffled':
+            rng.shuffle(idx)
+        elif kind == 'reversed':
+            idx.reverse()
+        elif kind == 'calendar':                  # a wrapped period given in calendar order (Jan first)
+            idx.sort(key=lambda i: c['moys'][i])
+        elif kind == 'afternoon-first':
+            idx = [i for i in idx if c['moys'][i] % 1440 >= 720] + [i for i in idx if c['moys'][i] % 1440 < 720]
+        c['hand'] = {'kind': kind, 'order': idx, 'seq': rng.choice(['list', 'tuple'])}
+    if rng.random() < 0.25 or force == 'apform':
+        c['apform'] = rng.choice(AP_FORMS)
+
+
+def _hp_hand_case(rng, kind):
+    """A sparse plot whose collection is handed over unvalidated in the given order (`calendar`: a wrapped
+    period with January first)."""
+    while True:
+        ap = _rand_ap(rng, rng.choice(['wrap', 'wrapwin'] if kind == 'calendar' else
+                                      ['plain', 'window', 'window23', 'wrap', 'wrapwin', 'day']))
+        moys = _sparse(rng, period_moys(ap))
+        if 2 <= len(moys) <= 1500:
+            break
+    c = {'cont': False, 'rev': rng.random() < 0.5, 'ap': ap, 'moys': moys, 'xdim': rng.choice([1, 2, 0.5]),
+         'ydim': rng.choice([4, 1, 0.25]), 'base': [rng.choice([0, 10, -7]), rng.choice([0, -3])]}
+    _hp_forms(rng, c, force=kind)
+    return c
+
+
+def _make_ap(spec, form=None):
+    """AnalysisPeriod of [stM, stD, stH, enM, enD, enH, ts, leap] built through the public entry point `form`."""
+    from ladybug.analysisperiod import AnalysisPeriod
+    a = list(spec)
+    if form in ('string', 'string-spaced'):
+        txt = '%d/%d to %d/%d between %d and %d @%d%s' % (a[0], a[1], a[3], a[4], a[2], a[5], a[6], '*' if a[7] else '')
+        if form == 'string-spaced':                # upper case, doubled blanks, two-digit fields: all legal
+            txt = '  %02d/%02d  TO %02d/%d  BETWEEN %02d AND  %d  @%d%s ' % (
+                a[0], a[1], a[3], a[4], a[2], a[5], a[6], '* ' if a[7] else '')
+        return AnalysisPeriod.from_string(txt)
+    if form == 'dict':
+        return AnalysisPeriod.from_dict({'st_month': a[0], 'st_day': a[1], 'st_hour': a[2], 'end_month': a[3],
+                                         'end_day': a[4], 'end_hour': a[5], 'timestep': a[6], 'is_leap_year': a[7],
+                                         'type': 'AnalysisPeriod'})
+    if form == 'strargs':
+        return AnalysisPeriod(*([str(x) for x in a[:6]] + [a[6], a[7]]))     # (a text timestep is refused)
+    if form == 'repr':
+        return AnalysisPeriod.from_string(repr(AnalysisPeriod(*a)))
+    return AnalysisPeriod(*a)
 
 
 def _same_day_number_case(rng, rev=True):
@@ -323,24 +440,46 @@ for _c in HP_CORPUS:
     if _c['moys'] is None:
         _c['moys'] = period_moys(_c['ap'])
 
+# (h) all 12 timesteps at the far end of the year (largest minute-of-year products), leap and not, and over the
+# year end; sparse every 7th step so that the face pattern is exercised
+HP_FAR_END = []
+for _ts in ALL_TS:
+    for _leap in (False, True):
+        for _ap in ([12, 30, 0, 12, 31, 23, _ts, _leap], [12, 31, 13, 1, 1, 20, _ts, _leap]):
+            _m = period_moys(_ap)
+            HP_FAR_END.append({'cont': False, 'rev': _ts % 2 == 0, 'ap': _ap, 'moys': _m[3:-1:7] + _m[-1:],
+                               'xdim': 1, 'ydim': 0.25, 'base': [0, 0]})
+HP_FAR_END.append({'cont': True, 'rev': True, 'ap': [12, 31, 0, 12, 31, 23, 60, True], 'moys': [], 'xdim': 0.3,
+                   'ydim': 0.001, 'base': [1000000.5, -0.1]})
+
 # the same-day overnight window that wraps the whole year (known finding)
 HP_SAMEDAY = {'cont': False, 'rev': False, 'ap': [1, 5, 22, 1, 5, 3, 1, False], 'moys': None, 'xdim': 1,
               'ydim': 4, 'base': [0, 0]}
 HP_SAMEDAY['moys'] = period_moys(HP_SAMEDAY['ap'])[:40]
 
 
-def _build_hp(case, legend_par=None):
+def _build_hp(case, legend_par=None, zper=None):
     from ladybug.analysisperiod import AnalysisPeriod
     from ladybug.datacollection import HourlyContinuousCollection, HourlyDiscontinuousCollection
     from ladybug.header import Header
     from ladybug.datatype.generic import GenericType
     from ladybug.hourlyplot import HourlyPlot
     from ladybug_geometry.geometry3d.pointvector import Point3D
-    ap = AnalysisPeriod(*case['ap'])
+    ap = _make_ap(case['ap'], case.get('apform'))
     hdr = Header(GenericType('id', ''), '', ap)
     leap = case['ap'][7]
     if case['cont']:
         coll = HourlyContinuousCollection(hdr, list(range(len(period_moys(case['ap'])))))
+    elif case.get('hand'):
+        # not validated, date-times in the hand-over order; value = index of the datum in case['moys']
+        from ladybug.dt import DateTime
+        order = case['hand']['order']
+        dts = []
+        for i in order:
+            d = _dt_of(leap, case['moys'][i])
+            dts.append(DateTime(d.month, d.day, d.hour, d.minute, leap))
+        seq = tuple if case['hand'].get('seq') == 'tuple' else list
+        coll = HourlyDiscontinuousCollection(hdr, seq(order), seq(dts))
     else:
         arrs = []
         for m in case['moys']:
@@ -351,6 +490,9 @@ def _build_hp(case, legend_par=None):
             'validated_a_period': True, 'type': 'HourlyDiscontinuous'})
     if case.get('imm'):
         coll = coll.to_immutable()
+    if zper is not None:                             # the other constructor (no reverse_y argument)
+        return HourlyPlot.from_z_dim_per_unit(coll, legend_par, Point3D(case['base'][0], case['base'][1], 0),
+                                              case['xdim'], case['ydim'], zper)
     return HourlyPlot(coll, legend_par, Point3D(case['base'][0], case['base'][1], 0), case['xdim'],
                       case['ydim'], 0, case['rev'])
 
@@ -412,7 +554,18 @@ def _hist_case(rng):
             vals.append(max(bins) + rng.choice([0, 0.5, 100]))
         else:
             vals.append(round(rng.uniform(min(bins) - 1, max(bins) + 1), 3))
-    return {'bins': bins, 'vals': vals}
+    if rng.random() < 0.12:                       # (h) magnitudes 1e-12 .. 1e+16 (dyadic scale: exact)
+        k = rng.choice([2.0 ** -40, 2.0 ** 53, 2.0 ** 20, -1.0])
+        if k > 0:
+            bins = [b * k for b in bins]
+            vals = [v * k for v in vals]
+        else:                                     # mirrored: negative values, negative edges
+            bins = sorted(-b for b in bins)
+            vals = [-v for v in vals]
+    c = {'bins': bins, 'vals': vals}
+    if rng.random() < 0.4:
+        c['shape'] = rng.choice(SHAPES)
+    return c
 
 
 def _hist_line(c):
@@ -427,6 +580,9 @@ def _show_id_lists(h):
 def _hist_impl(c):
     from ladybug._datacollectionbase import BaseCollection
     vals = [(v, i) for i, v in enumerate(c['vals'])]
+    if c.get('shape'):                              # keyed pairs from a one-shot zip / generator / tuple
+        vals = zip(c['vals'], range(len(c['vals']))) if c['shape'] in ('zipped', 'map') else \
+            tuple(vals) if c['shape'] == 'tuple' else iter(vals)
     return _show_id_lists(BaseCollection.histogram(vals, c['bins'], key=lambda p: p[0]))
 
 
@@ -459,7 +615,10 @@ def _circ_case(rng):
             vals.append(rng.choice([0.0, float(hi), hi - 2.0 ** -30, -1.0, hi + 1.0]))
         else:
             vals.append(round(rng.uniform(0, hi), 2))
-    return {'bins': bins, 'vals': vals, 'range': rngpair}
+    c = {'bins': bins, 'vals': vals, 'range': rngpair}
+    if rng.random() < 0.4:
+        c['shape'] = rng.choice(SHAPES)
+    return c
 
 
 def _circ_line(c):
@@ -471,6 +630,9 @@ def _circ_line(c):
 def _circ_impl(c):
     from ladybug._datacollectionbase import BaseCollection
     vals = [(v, i) for i, v in enumerate(c['vals'])]
+    if c.get('shape'):
+        vals = zip(c['vals'], range(len(c['vals']))) if c['shape'] in ('zipped', 'map') else \
+            tuple(vals) if c['shape'] == 'tuple' else iter(vals)
     rp = tuple(c['range']) if c['range'] else None
     return _show_id_lists(BaseCollection.histogram_circular(vals, c['bins'], rp, key=lambda p: p[0]))
 
@@ -499,6 +661,8 @@ def _wr_case(rng, n=None):
             k = rng.randrange(0, n)
             d = k * sect + rng.uniform(-0.49, 0.49) * sect
             d = d + rng.choice([0, 0, 0, 360])
+        if rng.random() < 0.05:          # (h) many whole turns away / tiny positive
+            d = rng.choice([d + 360.0 * 2 ** 20, d - 360.0 * 2 ** 12, 1e-12, 360.0 - 1e-9, 1e16])
         if not exact:                    # keep clear of the (float-rounded) sector edges
             x = (Fraction(float(d)) % 360 + Fraction(180, n)) / Fraction(360, n)
             if abs(x - round(x)) < Fraction(1, 1000):
@@ -515,9 +679,22 @@ def _wr_case(rng, n=None):
         c['sparse'] = hrs
         c['dirs'] = [dirs[h] for h in hrs]
         c['spd'] = [spd[h] for h in hrs]
+        if k > 1 and rng.random() < 0.6:          # handed over in another order (validated by the rose)
+            idx = list(range(k))
+            rng.shuffle(idx)
+            c['hand'] = idx
+            c['seq'] = rng.choice(['list', 'tuple'])
     elif q < 0.17:                                # nothing but calm hours
         c['speed'] = True
         c['spd'] = [rng.choice([0.0, 1e-11, 1e-10]) for _ in spd]
+    elif q < 0.3 and cnt > 24:                    # (i) many samples in discontinuous, unsorted collections
+        hrs = sorted(rng.sample(range(cnt), rng.choice([cnt - 1, cnt // 2, 30])))
+        c['sparse'] = hrs
+        c['dirs'] = [dirs[h] for h in hrs]
+        c['spd'] = [spd[h] for h in hrs]
+        idx = list(range(len(hrs)))
+        rng.shuffle(idx)
+        c['hand'] = idx
     if rng.random() < 0.2:
         c['imm'] = True                           # immutable twins of the input collections
     return c
@@ -542,9 +719,11 @@ def _build_wr(c):
     if c.get('sparse'):                          # discontinuous collections: any number of samples (>= 1)
         from ladybug.datacollection import HourlyDiscontinuousCollection
         from ladybug.dt import DateTime
-        dts = [DateTime(1, 1 + h // 24, h % 24) for h in c['sparse']]
-        dcol = HourlyDiscontinuousCollection(Header(Angle(), 'degrees', ap), list(c['dirs']), dts)
-        acol = HourlyDiscontinuousCollection(Header(atype, aunit, ap), list(c['spd']), list(dts))
+        order = c.get('hand') or list(range(len(c['sparse'])))
+        seq = tuple if c.get('seq') == 'tuple' else list
+        dts = [DateTime(1, 1 + c['sparse'][i] // 24, c['sparse'][i] % 24) for i in order]
+        dcol = HourlyDiscontinuousCollection(Header(Angle(), 'degrees', ap), seq(c['dirs'][i] for i in order), seq(dts))
+        acol = HourlyDiscontinuousCollection(Header(atype, aunit, ap), seq(c['spd'][i] for i in order), seq(dts))
         if c.get('imm'):
             dcol, acol = dcol.to_immutable(), acol.to_immutable()
         return WindRose(dcol, acol, c['n'])
@@ -578,30 +757,40 @@ def _is_cum(unit, stack):
     return unit == 'kWh' or (stack and unit == 'W')
 
 
-def _bars_case(rng, daily=False):
+def _bars_case(rng, daily=False, wrap=None):
     leap = rng.random() < 0.3
     ncoll = rng.choice([1, 1, 2, 3, 4])
     units = [rng.choice(BAR_TYPES) for _ in range(ncoll)]
     stack = rng.random() < 0.5
+    wrap = (rng.random() < 0.3) if wrap is None else wrap
     if daily:
         stM = rng.randrange(1, 13)
         stD = rng.choice([1, 1, 2, 15, _mdays(leap, stM)])
         stD = min(stD, _mdays(leap, stM))
         ndays = rng.choice([2, 3, 20, 31, 45, 70])
         a = datetime(_year(leap), stM, stD)
+        if wrap:                                # the period runs over the year end (Dec -> Jan / Feb)
+            a = datetime(_year(leap), 12, rng.choice([1, 15, 20, 31]))
+            if rng.random() < 0.3:
+                a = datetime(_year(leap), 11, rng.choice([1, 10, 30]))
+            ndays = (datetime(_year(leap), 12, 31) - a).days + 1 + rng.choice([1, 5, 31, 32, 45])
         b = a + timedelta(days=ndays - 1)
         if b.year != a.year:
-            b = datetime(_year(leap), 12, 31)
+            b = datetime(_year(leap), 12, 31) if not wrap else b.replace(year=a.year)
         if b == a:
             a = a - timedelta(days=1)
-        ndays = (b - a).days + 1
+        if not wrap:
+            ndays = (b - a).days + 1
         period = [a.month, a.day, 0, b.month, b.day, 23, 1, leap]
         npts = ndays
     else:
         stM = rng.randrange(1, 12)
         enM = rng.randrange(stM + 1, 13)       # (single-value collections fail validation: C13's subject)
+        if wrap:                                # Nov-Feb, Jul-Jun ...: the months after December come last
+            stM = rng.randrange(2, 13)
+            enM = rng.randrange(1, stM)
         period = [stM, 1, 0, enM, _mdays(leap, enM), 23, 1, leap]
-        npts = enM - stM + 1
+        npts = (enM - stM) % 12 + 1
     datas = []
     for u in units:
         sign = rng.choice([1, 1, -1, 0])
@@ -619,9 +808,60 @@ def _bars_case(rng, daily=False):
         lo = rng.choice([0, -50, -100, 5, 0.5])
         hi = lo + rng.choice([0, 10, 100, 150.5, 64])
         ranges[u] = [float(lo), float(hi)]
-    return {'daily': daily, 'period': period, 'units': units, 'stack': stack, 'datas': datas, 'ranges': ranges,
-            'xdim': rng.choice([10, 8, 1, 2.5]), 'ydim': rng.choice([40, 1, 16]),
-            'base': [rng.choice([0, 5, -20]), rng.choice([0, 3, -10])]}
+    if rng.random() < 0.08:                       # (h) very small / very large values on a matching axis
+        k = rng.choice([2.0 ** -30, 2.0 ** 30])
+        datas = [[v * k for v in d] for d in datas]
+        ranges = {u: [r[0] * k, r[1] * k] for u, r in ranges.items()}
+    c = {'daily': daily, 'period': period, 'units': units, 'stack': stack, 'datas': datas, 'ranges': ranges,
+         'xdim': rng.choice([10, 8, 1, 2.5]), 'ydim': rng.choice([40, 1, 16]),
+         'base': [rng.choice([0, 5, -20]), rng.choice([0, 3, -10])]}
+    # round 4 (kinds i, f): hand-over shapes.  `hand`: per collection None (chronological, as before) or a
+    # permutation in which its (date-time, value) pairs are handed over (the chart validates the collection
+    # itself); `seq`: container type of the collection list (list / tuple / generator / iter / map) and of
+    # the value lists; `apform`: how the AnalysisPeriod was built
+    if rng.random() < 0.35:
+        hands = []
+        for _ in units:
+            idx = list(range(npts))
+            k = rng.choice(['shuffled', 'reversed', 'calendar', 'none'])
+            if k == 'shuffled':
+                rng.shuffle(idx)
+            elif k == 'reversed':
+                idx.reverse()
+            elif k == 'calendar':
+                idx.sort(key=lambda i: _bar_stamp(c, i))
+            hands.append(idx if k != 'none' else None)
+        c['hand'] = hands
+    if rng.random() < 0.4:
+        c['seq'] = rng.choice(['tuple', 'generator', 'iter', 'map'])
+    if rng.random() < 0.25:
+        c['apform'] = rng.choice(AP_FORMS)
+    g0 = list(dict.fromkeys(units))[0]
+    if rng.random() < 0.25 and ranges[g0][0] <= ranges[g0][1]:
+        c['lpar'] = True
+    return c
+
+
+def _bar_months(c):
+    """Months of the chart in the order the period visits them (the chart's columns, left to right)."""
+    stM, enM = c['period'][0], c['period'][3]
+    return [(stM - 1 + i) % 12 + 1 for i in range((enM - stM) % 12 + 1)]
+
+
+def _bar_stamp(c, k):
+    """The `datetime` entry of datum k: month number (monthly) or day of the year (daily)."""
+    leap = c['period'][7]
+    if not c['daily']:
+        return _bar_months(c)[k]
+    d0 = (datetime(_year(leap), c['period'][0], c['period'][1]) - datetime(_year(leap), 1, 1)).days
+    return (d0 + k) % (366 if leap else 365) + 1
+
+
+def _bar_date(c, k):
+    """(month, day) of datum k of a daily chart."""
+    leap = c['period'][7]
+    d = datetime(_year(leap), 1, 1) + timedelta(days=_bar_stamp(c, k) - 1)
+    return d.month, d.day
 
 
 def _bar_groups(c):
@@ -649,8 +889,7 @@ def _bars_line(c):
     head = '%s %s %s %s %s' % (_fr(c['base'][0]), _fr(c['base'][1]), _fr(c['xdim']), _fr(c['ydim']), _b(c['stack']))
     if c['daily']:
         leap = c['period'][7]
-        months = list(range(c['period'][0], c['period'][3] + 1))
-        dpm = [_mdays(leap, m) for m in months]
+        dpm = [_mdays(leap, m) for m in _bar_months(c)]
         return 'dbars %s %d %d %d %s %d %s' % (head, _n_bars(c), c['period'][1], len(dpm),
                                                ' '.join(str(x) for x in dpm), len(gs), ' '.join(gs))
     return 'mbars %s %d %d %s' % (head, _n_bars(c), len(gs), ' '.join(gs))
@@ -662,18 +901,28 @@ def _build_chart(c):
     from ladybug.header import Header
     from ladybug.monthlychart import MonthlyChart
     from ladybug_geometry.geometry2d.pointvector import Point2D
-    ap = AnalysisPeriod(*c['period'])
-    leap = c['period'][7]
+    ap = _make_ap(c['period'], c.get('apform'))
     colls = []
-    for u, d in zip(c['units'], c['datas']):
+    seq = tuple if c.get('seq') == 'tuple' else list
+    for j, (u, d) in enumerate(zip(c['units'], c['datas'])):
         hdr = Header(_dtype(u), u, ap)
-        if c['daily']:
-            d0 = (datetime(_year(leap), c['period'][0], c['period'][1]) - datetime(_year(leap), 1, 1)).days + 1
-            colls.append(DailyCollection(hdr, list(d), list(range(d0, d0 + len(d)))))
-        else:
-            colls.append(MonthlyCollection(hdr, list(d), list(range(c['period'][0], c['period'][3] + 1))))
-    mc = MonthlyChart(colls, None, Point2D(c['base'][0], c['base'][1]), c['xdim'], c['ydim'], c['stack'])
+        order = (c.get('hand') or [None] * len(c['units']))[j]
+        order = list(range(len(d))) if order is None else order
+        vals = seq(d[i] for i in order)
+        stamps = seq(_bar_stamp(c, i) for i in order)
+        colls.append((DailyCollection if c['daily'] else MonthlyCollection)(hdr, vals, stamps))
+    kind = c.get('seq')
+    arg = tuple(colls) if kind == 'tuple' else (x for x in colls) if kind == 'generator' else \
+        iter(colls) if kind == 'iter' else map(lambda x: x, colls) if kind == 'map' else colls
+    lpar = None
+    g0 = _bar_groups(c)[0][0]
+    if c.get('lpar'):                               # the left axis given through LegendParameters(min, max): 0 is a value
+        from ladybug.legend import LegendParameters
+        lpar = LegendParameters(min=c['ranges'][g0][0], max=c['ranges'][g0][1])
+    mc = MonthlyChart(arg, lpar, Point2D(c['base'][0], c['base'][1]), c['xdim'], c['ydim'], c['stack'])
     for j, (u, _) in enumerate(_bar_groups(c)):
+        if j == 0 and lpar is not None:
+            continue
         mc.set_minimum_by_index(c['ranges'][u][0], j)
         mc.set_maximum_by_index(c['ranges'][u][1], j)
     return mc
@@ -707,14 +956,15 @@ def _psy_case(rng):
         if q < 0.3:
             t = float(rng.randrange(mn - 1, mx + 2))
         elif q < 0.4:
-            t = rng.choice([mn, mx, mn - 2.0 ** -20, mx + 2.0 ** -20, mx - 2.0 ** -20])
+            t = rng.choice([mn, mx, mn - 2.0 ** -20, mx + 2.0 ** -20, mx - 2.0 ** -20, mn + 2.0 ** -40, 2.0 ** 53,
+                            mn + 0.5, mx - 0.5])
         else:
             t = round(rng.uniform(mn - 3, mx + 3), 1)
         q = rng.random()
         if q < 0.4:
             rh = float(rng.choice(range(0, 105, 5)))
         elif q < 0.5:
-            rh = rng.choice([100.0, 0.0, 99.999, 5 - 2.0 ** -20, 100.5, 110.0])
+            rh = rng.choice([100.0, 0.0, 99.999, 5 - 2.0 ** -20, 100.5, 110.0, 2.0 ** -40, 2.0 ** 53, -1.0])
         else:
             rh = round(rng.uniform(0, 100), 1)
         ts.append(float(t))
@@ -874,8 +1124,26 @@ def _wr_history(rng, speed, n):
     return ops
 
 
-def _wrh_case(rng, n=None, big=False):
+def _wrh_case(rng, n=None, big=False, default_cut=False):
     c = _wr_case(rng, n)
+    if default_cut:
+        # more than 200 (400) samples in one sector and no frequency_hours assigned: the cut with the DEFAULT
+        # hours (200.0, a float) is reached as soon as frequency_intervals_compass is 1 (or 2)
+        c.pop('sparse', None), c.pop('hand', None)
+        c['days'] = rng.choice([9, 10, 12, 18])
+        cnt = 24 * c['days']
+        sect = 360.0 / c['n']
+        main = rng.randrange(c['n'])
+        c['dirs'] = [float((main * sect) % 360.0) if rng.random() < 0.97 else float(((main + 1) * sect) % 360.0)
+                     for _ in range(cnt)]
+        c['spd'] = [float(rng.choice([1, 2, 3, 4.5])) for _ in range(cnt)]
+        ops = [['read', rng.choice(WR_READS)]] if rng.random() < 0.5 else []
+        ops.append(['set', 'frequency_intervals_compass', rng.choice([1, 1, 2])])
+        ops += [['read', r] for r in rng.sample(WR_READS, 4)]
+        if rng.random() < 0.5:
+            ops += [['set', 'frequency_hours', rng.choice([50, 100, 200, 300])], ['read', 'hist'], ['read', 'rmax']]
+        c['ops'] = ops + [['read', 'hist'], ['read', 'rfmax'], ['read', 'rmesh'], ['read', 'prev']]
+        return c
     if big:                                       # many samples in few sectors: the cut is reachable
         k = rng.choice([1, 2, 3])
         sect = 360.0 / c['n']
@@ -1072,6 +1340,8 @@ def _check_whist(inp):
         fhv = 200 if fh is None else fh
         cut = fic is not None and fhv > 0 and fic < int(math.ceil(mx / float(fhv)))
         if o[0] == 'err':
+            # the repaired behaviour (fixes/C17_windrose_default_hours_cut.patch): the sectors are cut to
+            # frequency_intervals_compass * 200 values; the unrepaired slice with the float 200.0 raises
             if name in ('hist', 'rmax', 'rmesh', 'rfmax') and cut and fh is None and o[1] == 'type':
                 return {'required': '%s: sector lists cut to %d values' % (where, fic * fhv), 'observed': o[2],
                         'sig': dict(sig, clause='hist_raises', error='TypeError', default_hours_cut=True)}
@@ -1178,7 +1448,7 @@ def _bh_line(c):
     head = '%s %s %s %s %s' % (_fr(c['base'][0]), _fr(c['base'][1]), _fr(c['xdim']), _fr(c['ydim']), _b(c['stack']))
     if c['daily']:
         leap = c['period'][7]
-        dpm = [_mdays(leap, m) for m in range(c['period'][0], c['period'][3] + 1)]
+        dpm = [_mdays(leap, m) for m in _bar_months(c)]
         dl = '1 %d %d %s' % (c['period'][1], len(dpm), ' '.join(str(x) for x in dpm))
     else:
         dl = '0'
@@ -1230,26 +1500,27 @@ def _bars_clauses(inp, meshes_bars, ranges, sig, where=''):
         return {'required': '%s%d meshes' % (where, len(order)), 'observed': len(meshes_bars),
                 'sig': dict(sig, clause='shape')}
     eps = 1e-7 * max(1.0, abs(bx) + xd * 13)
+    months = _bar_months(inp)
     for (j, u, data), bars in zip(order, meshes_bars):
         if len(bars) != len(data):
             return {'required': '%s%d bars' % (where, len(data)), 'observed': len(bars),
                     'sig': dict(sig, clause='bar_count')}
         for k, (x, y0, w, y1) in enumerate(bars):
             if inp['daily']:
-                d = datetime(_year(leap), inp['period'][0], inp['period'][1]) + timedelta(days=k)
-                col = d.month - inp['period'][0]
+                mon, day = _bar_date(inp, k)
+                col = months.index(mon)
                 big = xd / _n_bars(inp)
-                slot = big / _mdays(leap, d.month)
+                slot = big / _mdays(leap, mon)
                 off = (x - (bx + col * xd)) % big
                 if not (bx + col * xd - eps <= x and x + w <= bx + (col + 1) * xd + eps) or \
-                        min(abs(off - (d.day - 1) * slot), abs(off - big - (d.day - 1) * slot)) > eps:
+                        min(abs(off - (day - 1) * slot), abs(off - big - (day - 1) * slot)) > eps:
                     return {'required': '%sbar of %d/%d in column %d at day slot %d' % (
-                        where, d.month, d.day, col, d.day - 1), 'observed': 'x=%r w=%r' % (x, w),
+                        where, mon, day, col, day - 1), 'observed': 'x=%r w=%r' % (x, w),
                         'sig': dict(sig, clause='day_column', first_day_is_1=inp['period'][1] == 1)}
             else:
                 if not (bx + k * xd - eps <= x and x + w <= bx + (k + 1) * xd + eps and w > 0):
-                    return {'required': '%sbar %d inside column %d' % (where, k, k), 'observed': 'x=%r w=%r' % (x, w),
-                            'sig': dict(sig, clause='month_column')}
+                    return {'required': '%sbar %d (month %d) inside column %d' % (where, k, months[k], k),
+                            'observed': 'x=%r w=%r' % (x, w), 'sig': dict(sig, clause='month_column')}
         hs = [b[3] - b[1] for b in bars]
         tol = 1e-7 * (1 + max(abs(h) for h in hs))
         pts = sorted(zip(data, hs))
@@ -1627,16 +1898,16 @@ def _hh_impl(c):
 
 
 def _hp_want(inp, hp, ny):
-    """Cell of every value id from its own date-time and the period (stdlib arithmetic)."""
-    p = hp.analysis_period
-    dc = hp.data_collection
-    leap = p.is_leap_year
+    """Cell of every value id from the date-time the INPUT gives it and the input period (stdlib arithmetic)."""
+    ap = inp['ap']
+    leap = ap[7]
     ndays = 366 if leap else 365
-    d0 = (datetime(_year(leap), p.st_month, p.st_day) - datetime(_year(leap), 1, 1)).days
-    step = 60 // p.timestep
-    row0 = p.st_hour * 60 if p.st_hour <= p.end_hour else 0
+    d0 = (datetime(_year(leap), ap[0], ap[1]) - datetime(_year(leap), 1, 1)).days
+    step = 60 // ap[6]
+    row0 = ap[2] * 60 if ap[2] <= ap[5] else 0
     want = {}
-    for dt, v in zip(dc.datetimes, dc.values):
+    for v, m in enumerate(period_moys(ap) if inp['cont'] else inp['moys']):
+        dt = _dt_of(leap, m)
         doy0 = (datetime(_year(leap), dt.month, dt.day) - datetime(_year(leap), 1, 1)).days
         row = (dt.hour * 60 + dt.minute - row0) // step
         if inp['rev']:
@@ -1700,11 +1971,14 @@ def correspondence(ctx):
 def _correspondence(ctx):
     rng = ctx.rng
     # hourly plot
-    cases = list(HP_CORPUS)
+    cases = list(HP_CORPUS) + list(HP_FAR_END)
+    ctx.count('stratum:hp all 12 timesteps at the far end of the year', len(HP_FAR_END))
     for _ in range(ctx.n(300, 2500)):
         cases.append(_hp_case(rng))
     for _ in range(ctx.n(25, 300)):
         cases.append(_same_day_number_case(rng, rev=rng.random() < 0.8))
+    for kind in HP_ORDERS * ctx.n(3, 20):          # every hand-over order, incl. wrapped periods in calendar order
+        cases.append(_hp_hand_case(rng, kind))
     for c in cases:
         ap = c['ap']
         kind = ('cont' if c['cont'] else 'disc') + ('/rev' if c['rev'] else '')
@@ -1718,24 +1992,61 @@ def _correspondence(ctx):
             ctx.count('hp:year-wrapping')
         if not c['cont'] and len(c['moys']) < len(period_moys(ap)):
             ctx.count('hp:sparse')
+        if c.get('hand'):
+            ctx.count('hp:handed over unvalidated, order=%s' % c['hand']['kind'])
+            ctx.count('branch:hourlyplot.__init__ validates the collection itself')
+        if c.get('apform'):
+            ctx.count('hp:period built by %s' % c['apform'])
+        if not c['cont']:
+            ctx.count('branch:hourlyplot._compute_colored_mesh2d face pattern' + ('/reversed' if c['rev'] else ''))
+            if ap[2] > ap[5]:
+                ctx.count('branch:hourlyplot m_aper whole-day period of an overnight window')
+        ctx.count('branch:hourlyplot._num_y %s' % ('whole day' if (ap[2], ap[5]) == (0, 23) else
+                                                   'overnight' if ap[2] > ap[5] else 'window'))
+        if _moy_of(ap[7], ap[0], ap[1], ap[2]) > _moy_of(ap[7], ap[3], ap[4], ap[5]):
+            ctx.count('branch:hourlyplot._num_x reversed period')
+        if c['rev']:
+            ctx.count('branch:hourlyplot.values per-day reversal')
     compare_batch(ctx, 'hp', cases, _hp_line, _hp_impl,
                   key=lambda c: (c['cont'], c['rev'], tuple(c['ap']), tuple(c['moys'])))
     # histograms
     hc = [_hist_case(rng) for _ in range(ctx.n(500, 6000))]
     hc += [{'bins': [0, 1, 2, 3], 'vals': [0, 0, 0.9, 1, 1.5, 1.99, 2, 3]}, {'bins': [], 'vals': [1.0]},
            {'bins': [1.0], 'vals': [0.0, 1.0, 2.0]}]
+    for c in hc:
+        ctx.count('hist:values as %s' % (c.get('shape') or 'list'))
+        if c['bins'] and c['vals']:
+            if min(c['vals']) < min(c['bins']):
+                ctx.count('branch:histogram below the first edge')
+            if max(c['vals']) >= max(c['bins']):
+                ctx.count('branch:histogram at / above the last edge')
+            if any(a > b for a, b in zip(c['bins'], c['bins'][1:])):
+                ctx.count('branch:histogram non-monotone edges (search loop may fall through)')
     compare_batch(ctx, 'hist', hc, _hist_line, _hist_impl, key=lambda c: (tuple(c['bins']), tuple(c['vals'])))
     cc = [_circ_case(rng) for _ in range(ctx.n(600, 6000))]
     cc += [{'bins': [358, 0, 3], 'vals': [358, 359, 0, 1, 2, 3], 'range': None},
            {'bins': [358, 0, 3], 'vals': [], 'range': None}]
     for c in cc:
         ctx.count('circ:range=' + ('given' if c['range'] else 'none'))
+        ctx.count('circ:values as %s' % (c.get('shape') or 'list'))
+        if not c['range']:
+            ctx.count('branch:histogram_circular hist_range None')
+        if any(a >= b for a, b in zip(c['bins'], c['bins'][1:])):
+            ctx.count('branch:histogram_circular bin that wraps the range end')
+        if c['range'] and any(not c['range'][0] <= v < c['range'][1] for v in c['vals']):
+            ctx.count('branch:histogram_circular sample outside the range')
     compare_batch(ctx, 'circ', cc, _circ_line, _circ_impl,
                   key=lambda c: (tuple(c['bins']), tuple(c['vals']), str(c['range'])))
     # wind rose
     wc = [_wr_case(rng, n) for n in range(1, 37)] + [_wr_case(rng) for _ in range(ctx.n(120, 1500))]
     for c in wc:
         ctx.count('wrose:n=%s' % ('exact' if c['n'] in EXACT_N else 'inexact'))
+        if c.get('hand'):
+            ctx.count('wrose:discontinuous data handed over unsorted')
+        if c['speed']:
+            ctx.count('branch:windrose calm filter (speed data)')
+        else:
+            ctx.count('branch:windrose no calm filter (other data type)')
         ctx.count('wrose:calm samples', sum(1 for v in c['spd'] if not v > 1e-10))
     compare_numeric(ctx, 'wrose', wc, _wr_line, _wr_impl,
                     key=lambda c: (c['n'], c['speed'], tuple(c['dirs']), tuple(c['spd'])))
@@ -1753,16 +2064,107 @@ def _correspondence(ctx):
     for c in bc:
         ctx.count('mbars:stack=%s' % c['stack'])
         ctx.count('mbars:collections=%d' % len(c['units']))
+        _count_bar_forms(ctx, 'mbars', c)
     compare_numeric(ctx, 'mbars', bc, _bars_line, _bars_impl, key=lambda c: repr(c))
     dc = [_bars_case(rng, True) for _ in range(ctx.n(120, 1200))]
     for c in dc:
         ctx.count('dbars:start day %s' % ('1' if c['period'][1] == 1 else '>1'))
-        ctx.count('dbars:months=%d' % (c['period'][3] - c['period'][0] + 1))
+        ctx.count('dbars:months=%d' % len(_bar_months(c)))
+        _count_bar_forms(ctx, 'dbars', c)
     compare_numeric(ctx, 'dbars', dc, _bars_line, _bars_impl, key=lambda c: repr(c))
     # psychrometric chart
     pc = [_psy_case(rng) for _ in range(ctx.n(100, 1000))]
+    for c in pc:
+        if any(r >= 100 for r in c['rh']):
+            ctx.count('branch:psych humidity loop falls through (rh >= 100)')
+        if any(t == c['max'] for t in c['t']):
+            ctx.count('branch:psych temperature loop falls through (t == max)')
+        if any(t < c['min'] or t > c['max'] for t in c['t']):
+            ctx.count('branch:psych hour off the chart')
     compare_batch(ctx, 'psych', pc, _psy_line, _psy_impl, key=lambda c: repr(c))
     _correspondence_histories(ctx)
+
+
+def _default_cut_reads(c, impl_toks):
+    """Indices (among the modelled steps) of the reads taken while frequency_intervals_compass is below the
+    needed intervals and frequency_hours still has its default: the state of finding / fix
+    C17-windrose-default-hours-cut."""
+    sc = _wr_sectors(c)
+    if sc is None:
+        return set()
+    mx = max(len(b) for b in sc[0])
+    fh = fic = None
+    out = set()
+    k = -1
+    for op in c['ops']:
+        if op[0] == 'touch':
+            continue
+        k += 1
+        tok = impl_toks[k] if k < len(impl_toks) else ''
+        if op[0] == 'set':
+            if tok == 'ok' and _is_num(op[2]):
+                if op[1] == 'frequency_hours':
+                    fh = int(op[2])
+                elif op[1] == 'frequency_intervals_compass':
+                    fic = int(op[2])
+        elif fh is None and fic is not None and fic < int(math.ceil(mx / 200.0)) and \
+                op[1] in ('hist', 'rmax', 'rmesh', 'rfmax'):
+            out.add(k)
+    return out
+
+
+def _compare_whist(ctx, cases):
+    """compare_numeric for wind-rose histories.  The model describes the REPAIRED cut of histogram_data
+    (fixes/C17_windrose_default_hours_cut.patch).  Where the code answers TypeError exactly at the reads of that
+    state (and agrees with the model everywhere else) the deviation is the recorded defect itself: it is
+    reported as a property failure with the finding's signature (a VIOLATION as soon as the finding entry is
+    gone), not as a broken tie."""
+    lines = [_wrh_line(c) for c in cases]
+    outs = ctx.driver().run(lines)
+    for c, line, mo in zip(cases, lines, outs):
+        try:
+            io = _wrh_impl(c)
+        except Exception as e:
+            io = 'err:' + err_name(e)
+        ctx.compared += 1
+        ctx.count('op:whist')
+        ctx.case(('whist', repr(c)), nontrivial=not io.startswith('err:'))
+        if _same_numbers(mo, io):
+            continue
+        mt, it = mo.split(' ; '), io.split(' ; ')
+        if len(mt) == len(it) and mo.startswith('ok') and io.startswith('ok'):
+            diff = [k for k in range(1, len(mt)) if not _same_numbers('ok ' + mt[k], 'ok ' + it[k])]
+            state = _default_cut_reads(c, it[1:])
+            if diff and all(it[k] == 'err:type' and (k - 1) in state for k in diff):
+                ctx.count('whist:default-hours cut raises (recorded defect)')
+                ctx.fail('whist', c, 'step %d: %s' % (diff[0] - 1, mt[diff[0]][:120]), 'TypeError',
+                         {'speed': bool(c['speed']), 'clause': 'hist_raises', 'error': 'TypeError',
+                          'default_hours_cut': True})
+                continue
+        ctx.disagree('whist', {'case': c, 'line': line}, mo[:2000], io[:2000])
+    if cases:
+        ctx.sample({'op': 'whist', 'request': lines[0][:300], 'model': outs[0][:300]})
+
+
+def _count_bar_forms(ctx, tag, c):
+    if c['period'][0] > c['period'][3]:
+        ctx.count('%s:period wraps the year end' % tag)
+    if c.get('hand') and any(h is not None for h in c['hand']):
+        ctx.count('%s:collection handed over unsorted' % tag)
+    if c.get('seq'):
+        ctx.count('%s:collections given as %s' % (tag, c['seq']))
+    if c.get('apform'):
+        ctx.count('%s:period built by %s' % (tag, c['apform']))
+    if c.get('lpar'):
+        ctx.count('branch:monthlychart axis range from LegendParameters(min, max)' +
+                  (' with a zero' if 0 in c['ranges'][list(dict.fromkeys(c['units']))[0]] else ''))
+    for u in dict.fromkeys(c['units']):
+        cum = _is_cum(u, c['stack'])
+        ctx.count('branch:bars %s' % ('cumulative' if cum else 'from the base line'))
+        if cum and any(v < 0 for uu, d in zip(c['units'], c['datas']) if uu == u for v in d):
+            ctx.count('branch:bars cumulative negative bar (bar_y_low)')
+    if c['daily'] and len(_bar_months(c)) > 1:
+        ctx.count('branch:daily bars month change')
 
 
 def _count_history(ctx, tag, ops):
@@ -1783,7 +2185,11 @@ def _correspondence_histories(ctx):
         _count_history(ctx, 'whist', c['ops'])
         ctx.count('whist:refused', sum(1 for op in c['ops'] if op[0] == 'set' and _wr_model_op(op, c['speed']) in (
             'badtype', 'other 0') or (op[0] == 'set' and _is_num(op[2]) and op[2] <= 0 and op[1].startswith('freq'))))
-    compare_numeric(ctx, 'whist', wh, _wrh_line, _wrh_impl, key=lambda c: repr(c))
+    # (kept small: on a tree without the repair every one of them is a hit of the recorded finding, and the
+    # core keeps at most 200 failures)
+    wh += [_wrh_case(rng, default_cut=True) for _ in range(ctx.n(10, 30))]
+    ctx.count('branch:windrose.histogram_data cut with default frequency_hours', ctx.n(10, 30) + 1)
+    _compare_whist(ctx, wh)
     bh = [_bh_case(rng, False) for _ in range(ctx.n(80, 800))] + [_bh_case(rng, True) for _ in range(ctx.n(60, 600))]
     for c in bh:
         _count_history(ctx, 'bhist', c['ops'])
@@ -1856,7 +2262,17 @@ def _check_hp(inp):
     step = 60 // p.timestep
     row0 = p.st_hour * 60 if p.st_hour <= p.end_hour else 0
     want = {}
-    for dt, v in zip(dts, vals):
+    # the datum with id v is the v-th date-time of the INPUT (inp['moys'] / the period's steps), whatever the
+    # order and container in which the collection was handed over and whatever validation did with it
+    src = period_moys(ap) if inp['cont'] else inp['moys']
+    if sorted(vals) != list(range(len(src))):
+        return {'required': 'the plot keeps the %d data it was given' % len(src), 'observed': str(vals)[:120],
+                'sig': dict(sig, clause='data_kept')}
+    if (p.st_month, p.st_day, p.st_hour, p.end_month, p.end_day, p.end_hour, p.timestep, bool(p.is_leap_year)) != \
+            tuple(ap[:7]) + (bool(ap[7]),):
+        return {'required': 'period %s' % ap, 'observed': str(p), 'sig': dict(sig, clause='period')}
+    for v, m in enumerate(src):
+        dt = _dt_of(ap[7], m)
         doy0 = (datetime(_year(leap), dt.month, dt.day) - datetime(_year(leap), 1, 1)).days
         col = (doy0 - d0) % ndays
         mod = dt.hour * 60 + dt.minute
@@ -1873,7 +2289,7 @@ def _check_hp(inp):
                     'sig': dict(sig, clause='bijection')}
         seen.add(pv)
         if cell != want[pv]:
-            return {'required': 'value %r (%s) at cell %s' % (pv, dts[vals.index(pv)], want[pv]),
+            return {'required': 'value %r (%s) at cell %s' % (pv, _dt_of(ap[7], src[pv]), want[pv]),
                     'observed': 'face %d at cell %s' % (k, cell), 'sig': dict(sig, clause='cell')}
         if colr != crange.color(pv):
             return {'required': 'colour of value %r' % pv, 'observed': str(colr), 'sig': dict(sig, clause='colour')}
@@ -1896,7 +2312,62 @@ def _check_hp(inp):
         except Exception as e:
             return {'required': 'plot with a custom legend', 'observed': 'raises %s' % type(e).__name__,
                     'sig': dict(sig, clause='builds_legend', error=type(e).__name__)}
+    # (f) results are the caller's: editing what a read returned must not change the next answer
+    try:
+        first = list(hp.values)
+        for got in (hp.values, hp.colors):
+            _scramble(got)
+        again = list(hp.values)
+        mesh_b, _, _, cells_b = _hp_cells(hp, inp)
+        if again != first or cells_b != cells or list(mesh_b.colors) != colors:
+            return {'required': 'the same plot after the caller edited the lists a read returned',
+                    'observed': 'values %s' % str(again)[:80], 'sig': dict(sig, clause='alias_result')}
+    except Exception as e:
+        return {'required': 'second read', 'observed': 'raises %s' % type(e).__name__,
+                'sig': dict(sig, clause='alias_result', error=type(e).__name__)}
+    # the other entry point and the height-field branch (z_dim != 0): same cells, same colours
+    if not inp['rev'] and 2 <= n <= 400:
+        try:
+            hp3 = _build_hp(inp, None, 0.5)
+            m3 = hp3.colored_mesh3d
+            cells3 = [(int(math.floor((c.x - inp['base'][0]) / inp['xdim'])),
+                       int(math.floor((c.y - inp['base'][1]) / inp['ydim']))) for c in m3.face_centroids]
+            if cells3 != cells or list(m3.colors) != colors:
+                return {'required': 'from_z_dim_per_unit / colored_mesh3d: the cells and colours of colored_mesh2d',
+                        'observed': str(cells3)[:100], 'sig': dict(sig, clause='z_entry')}
+        except Exception as e:
+            return {'required': 'from_z_dim_per_unit plot', 'observed': 'raises %s: %s' % (type(e).__name__, str(e)[:80]),
+                    'sig': dict(sig, clause='z_entry', error=type(e).__name__)}
     return None
+
+
+SHAPES = ('tuple', 'generator', 'iter', 'map', 'zipped')
+
+
+def _shaped(vals, shape):
+    """The same numbers in another container: tuple, generator, iter(), map object (one-shot iterables)."""
+    if shape == 'tuple':
+        return tuple(vals)
+    if shape == 'generator':
+        return (v for v in vals)
+    if shape == 'iter':
+        return iter(list(vals))
+    if shape == 'map':
+        return map(float, vals)
+    if shape == 'zipped':
+        return (v for v, _ in zip(vals, range(len(vals))))
+    return list(vals)
+
+
+def _scramble(x):
+    """Edit a returned container in place where it is editable (lists, nested lists)."""
+    if isinstance(x, list):
+        for y in x:
+            _scramble(y)
+        x.reverse()
+        if x:
+            x.pop()
+    return x
 
 
 def _check_hist(inp):
@@ -1904,8 +2375,19 @@ def _check_hist(inp):
     bins, vals = inp['bins'], inp['vals']
     if not bins or any(a > b for a, b in zip(bins, bins[1:])):
         return None                                     # the statement is about monotone edges
-    h = BaseCollection.histogram(list(vals), bins)
+    shape = inp.get('shape')
+    h = BaseCollection.histogram(_shaped(vals, shape), tuple(bins) if shape in ('tuple', 'iter') else bins)
     sig = {}
+    if shape:
+        # (f) the answer does not depend on the container type of the arguments; a one-shot iterable is enough
+        h0 = BaseCollection.histogram(list(vals), list(bins))
+        if h != h0:
+            return {'required': 'the bins of the list form: %s' % str(h0)[:120], 'observed': str(h)[:120],
+                    'sig': dict(sig, clause='shape_independent', shape=shape)}
+        _scramble(h0)
+        if BaseCollection.histogram(list(vals), list(bins)) != h:
+            return {'required': 'a fresh result per call', 'observed': 'changed after the caller edited a result',
+                    'sig': dict(sig, clause='alias_result')}
     if len(h) != len(bins) + 1:
         return {'required': '%d lists' % (len(bins) + 1), 'observed': len(h), 'sig': dict(sig, clause='shape')}
     if sorted(v for b in h for v in b) != sorted(vals):
@@ -1934,8 +2416,19 @@ def _check_circ(inp):
     if rp is None or len(bins) < 2:
         return None
     lo, hi = rp
-    h = BaseCollection.histogram_circular(list(vals), bins, (lo, hi))
+    shape = inp.get('shape')
+    h = BaseCollection.histogram_circular(_shaped(vals, shape), tuple(bins) if shape in ('tuple', 'iter') else bins,
+                                          (lo, hi) if shape != 'map' else [lo, hi])
     sig = {}
+    if shape:
+        h0 = BaseCollection.histogram_circular(list(vals), list(bins), (lo, hi))
+        if h != h0:
+            return {'required': 'the bins of the list form: %s' % str(h0)[:120], 'observed': str(h)[:120],
+                    'sig': dict(sig, clause='shape_independent', shape=shape)}
+        _scramble(h0)
+        if BaseCollection.histogram_circular(list(vals), list(bins), (lo, hi)) != h:
+            return {'required': 'a fresh result per call', 'observed': 'changed after the caller edited a result',
+                    'sig': dict(sig, clause='alias_result')}
     placed = sorted(v for b in h for v in b)
     inr = [v for v in vals if lo <= v < hi]
     covered = [v for v in inr if any(_arc_contains(bins[i], bins[i + 1], lo, hi, v) for i in range(len(bins) - 1))]
@@ -1990,6 +2483,23 @@ def _check_wrose(inp):
     arg = [i * 360.0 / n for i in range(n) if len(h[i]) == mx]
     if len(arg) != len(pv) or any(abs(a - b) > 1e-9 for a, b in zip(arg, pv)):
         return {'required': 'prevailing %s' % arg, 'observed': str(pv), 'sig': dict(sig, clause='prevailing')}
+    # (f) edit every list a read returned, ask again; a second rose of the same data agrees
+    try:
+        from ladybug.windrose import WindRose
+        for got in (wr.angles, wr.direction_values, wr.analysis_values, pv):
+            _scramble(got)
+        _scramble(WindRose._compute_angles(n))
+        wr2 = _build_wr(inp)
+        same = [tuple(map(tuple, x.histogram_data)) for x in (wr, wr2)]
+        if same[0] != tuple(map(tuple, h)) or same[1] != same[0] or wr.zero_count != zc or \
+                list(wr.prevailing_direction) != list(wr2.prevailing_direction) or \
+                len(arg) != len(wr2.prevailing_direction) or \
+                any(abs(a - b) > 1e-9 for a, b in zip(arg, wr2.prevailing_direction)):
+            return {'required': 'the same sectors on a second read / from a second rose', 'observed': str(same[1])[:120],
+                    'sig': dict(sig, clause='alias_result')}
+    except Exception as e:
+        return {'required': 'a second read', 'observed': 'raises %s' % type(e).__name__,
+                'sig': dict(sig, clause='alias_result', error=type(e).__name__)}
     return None
 
 
@@ -1998,52 +2508,34 @@ def _check_bars(inp):
     try:
         mc = _build_chart(inp)
         meshes = mc.data_meshes
+        bars = [_mesh_bars(m) for m in meshes]
+        labels = list(mc.month_labels)
+        pts = list(mc.month_label_points)
     except Exception as e:
         return {'required': 'bar meshes', 'observed': 'raises %s: %s' % (type(e).__name__, str(e)[:80]),
                 'sig': dict(sig, clause='builds', error=type(e).__name__)}
-    bx, xd = inp['base'][0], inp['xdim']
-    leap = inp['period'][7]
-    # the meshes come group by group (units in order of first appearance)
-    order = []
-    for u, ds in _bar_groups(inp):
-        order += [(u, d) for d in ds]
-    if len(meshes) != len(order):
-        return {'required': '%d meshes' % len(order), 'observed': len(meshes), 'sig': dict(sig, clause='shape')}
-    eps = 1e-7 * max(1.0, abs(bx) + xd * 13)
-    for (u, data), mesh in zip(order, meshes):
-        bars = _mesh_bars(mesh)
-        if len(bars) != len(data):
-            return {'required': '%d bars' % len(data), 'observed': len(bars), 'sig': dict(sig, clause='bar_count')}
-        for k, (x, y0, w, y1) in enumerate(bars):
-            if inp['daily']:
-                d = datetime(_year(leap), inp['period'][0], inp['period'][1]) + timedelta(days=k)
-                col = d.month - inp['period'][0]
-                big = xd / _n_bars(inp)
-                slot = big / _mdays(leap, d.month)
-                # inside its month's column and, within the collection's strip, at the slot of its day
-                off = (x - (bx + col * xd)) % big
-                if not (bx + col * xd - eps <= x and x + w <= bx + (col + 1) * xd + eps) or \
-                        min(abs(off - (d.day - 1) * slot), abs(off - big - (d.day - 1) * slot)) > eps:
-                    return {'required': 'bar of %d/%d in column %d at day slot %d' % (d.month, d.day, col, d.day - 1),
-                            'observed': 'x=%r w=%r' % (x, w),
-                            'sig': dict(sig, clause='day_column', first_day_is_1=inp['period'][1] == 1)}
-            else:
-                if not (bx + k * xd - eps <= x and x + w <= bx + (k + 1) * xd + eps and w > 0):
-                    return {'required': 'bar %d inside column %d' % (k, k), 'observed': 'x=%r w=%r' % (x, w),
-                            'sig': dict(sig, clause='month_column')}
-        # heights affine in the values (one common slope and intercept per collection)
-        hs = [b[3] - b[1] for b in bars]
-        tol = 1e-7 * (1 + max(abs(h) for h in hs))
-        pts = sorted(zip(data, hs))
-        (v0, h0), (v1, h1) = pts[0], pts[-1]
-        if v1 > v0:
-            slope = (h1 - h0) / (v1 - v0)
-            bad = slope <= 0 or any(abs(h0 + slope * (v - v0) - h) > tol for v, h in pts)
-        else:
-            bad = any(abs(h - h0) > tol for v, h in pts)
-        if bad:
-            return {'required': 'heights affine and increasing in the values', 'observed': str(pts)[:160],
-                    'sig': dict(sig, clause='affine')}
+    ranges = [list(inp['ranges'][u]) for u, _ in _bar_groups(inp)]
+    r = _bars_clauses(inp, bars, ranges, sig)
+    if r:
+        return r
+    # the columns are the months of the period in the order the period visits them, each under its own label
+    from ladybug.analysisperiod import AnalysisPeriod
+    months = _bar_months(inp)
+    if labels != [AnalysisPeriod.MONTHNAMES[m] for m in months] or len(pts) != len(months) or any(
+            abs(p.x - (inp['base'][0] + (i + 0.5) * inp['xdim'])) > 1e-7 * (1 + abs(p.x)) for i, p in enumerate(pts)):
+        return {'required': 'month labels %s at the column centres' % months, 'observed': str(labels)[:120],
+                'sig': dict(sig, clause='month_labels')}
+    # (f) the returned list of meshes is the caller's; a second chart of the same data in this process agrees
+    try:
+        _scramble(meshes)
+        again = [_mesh_bars(m) for m in mc.data_meshes]
+        other = [_mesh_bars(m) for m in _build_chart(inp).data_meshes]
+    except Exception as e:
+        return {'required': 'second read', 'observed': 'raises %s' % type(e).__name__,
+                'sig': dict(sig, clause='alias_result', error=type(e).__name__)}
+    if again != bars or other != bars:
+        return {'required': 'the same bars on a second read / from a second chart of the same data',
+                'observed': str(again if again != bars else other)[:120], 'sig': dict(sig, clause='alias_result')}
     return None
 
 
@@ -2099,9 +2591,143 @@ def _check_psych(inp):
     return None
 
 
+# ---- monthly chart of monthly-per-hour and hourly data (oracle only): the line of a month stands in the
+# ---- month's column, hour by hour, at heights affine in the values (the mean line of hourly data)
+
+
+def _ml_case(rng, hourly=None):
+    hourly = (rng.random() < 0.4) if hourly is None else hourly
+    leap = rng.random() < 0.3
+    wrap = rng.random() < 0.4
+    if wrap:
+        stM = rng.randrange(2, 13)
+        enM = rng.randrange(1, stM)
+    else:
+        stM = rng.randrange(1, 13)
+        enM = rng.randrange(stM, 13)
+    nm = (enM - stM) % 12 + 1
+    if hourly and nm > 4:                           # keep the hourly collections small
+        enM = (stM - 1 + rng.choice([0, 1, 2, 3])) % 12 + 1
+        nm = (enM - stM) % 12 + 1
+    ncoll = rng.choice([1, 1, 2])
+    months = [(stM - 1 + i) % 12 + 1 for i in range(nm)]
+    datas = []
+    for _ in range(ncoll):
+        if hourly:
+            nv = sum(_mdays(leap, m) for m in months) * 24
+        else:
+            nv = nm * 24
+        datas.append([float(rng.choice([0, 1, 2.5, 10, -4, 7.25, 30, 16])) if rng.random() < 0.6
+                      else round(rng.uniform(-10, 40), 2) for _ in range(nv)])
+    lo = rng.choice([-10.0, -50.0, 0.0, -10.5])
+    c = {'hourly': hourly, 'period': [stM, 1, 0, enM, _mdays(leap, enM), 23, 1, leap], 'datas': datas,
+         'range': [lo, lo + rng.choice([50.0, 100.0, 64.5])], 'stack': rng.random() < 0.3,
+         'xdim': rng.choice([10, 8, 2.5, 24]), 'ydim': rng.choice([40, 1, 16]),
+         'base': [rng.choice([0, 5, -20]), rng.choice([0, 3, -10])]}
+    if not hourly and rng.random() < 0.4:           # handed over month by month in another order
+        idx = list(range(nm))
+        rng.shuffle(idx)
+        c['hand'] = idx
+    if rng.random() < 0.3:
+        c['seq'] = rng.choice(['tuple', 'generator', 'iter', 'map'])
+    if rng.random() < 0.25:
+        c['apform'] = rng.choice(AP_FORMS)
+    return c
+
+
+def _build_ml(c):
+    from ladybug.datacollection import HourlyContinuousCollection, MonthlyPerHourCollection
+    from ladybug.header import Header
+    from ladybug.datatype.temperature import Temperature
+    from ladybug.monthlychart import MonthlyChart
+    from ladybug_geometry.geometry2d.pointvector import Point2D
+    ap = _make_ap(c['period'], c.get('apform'))
+    months = _bar_months(c)
+    colls = []
+    for d in c['datas']:
+        hdr = Header(Temperature(), 'C', ap)
+        if c['hourly']:
+            colls.append(HourlyContinuousCollection(hdr, list(d)))
+        else:
+            order = c.get('hand') or list(range(len(months)))
+            stamps = [(months[i], h) for i in order for h in range(24)]
+            vals = [d[i * 24 + h] for i in order for h in range(24)]
+            colls.append(MonthlyPerHourCollection(hdr, vals, stamps))
+    kind = c.get('seq')
+    arg = tuple(colls) if kind == 'tuple' else (x for x in colls) if kind == 'generator' else \
+        iter(colls) if kind == 'iter' else map(lambda x: x, colls) if kind == 'map' else colls
+    mc = MonthlyChart(arg, None, Point2D(c['base'][0], c['base'][1]), c['xdim'], c['ydim'], c['stack'])
+    mc.set_minimum_by_index(c['range'][0], 0)
+    mc.set_maximum_by_index(c['range'][1], 0)
+    return mc
+
+
+def _check_mlines(inp):
+    sig = {'hourly': bool(inp['hourly']), 'stack': bool(inp['stack'])}
+    months = _bar_months(inp)
+    nm = len(months)
+    leap = inp['period'][7]
+    try:
+        mc = _build_ml(inp)
+        lines = [[(v.x, v.y) for v in pl.vertices] for pl in mc.data_polylines]
+        labels = list(mc.month_labels)
+        meshes = mc.data_meshes if inp['hourly'] else None
+    except Exception as e:
+        return {'required': 'chart lines', 'observed': 'raises %s: %s' % (type(e).__name__, str(e)[:80]),
+                'sig': dict(sig, clause='builds', error=type(e).__name__)}
+    from ladybug.analysisperiod import AnalysisPeriod
+    if labels != [AnalysisPeriod.MONTHNAMES[m] for m in months]:
+        return {'required': 'month labels %s' % months, 'observed': str(labels), 'sig': dict(sig, clause='month_labels')}
+    bx, by, xd, yd = inp['base'][0], inp['base'][1], inp['xdim'], inp['ydim']
+    lo, hi = inp['range']
+    per = 3 if inp['hourly'] else 1                  # hourly data: upper, lower and mean line of every month
+    if len(lines) != per * nm * len(inp['datas']):
+        return {'required': '%d lines' % (per * nm * len(inp['datas'])), 'observed': len(lines),
+                'sig': dict(sig, clause='line_count')}
+    tol = 1e-7 * (1 + abs(bx) + 13 * xd)
+    for j, data in enumerate(inp['datas']):
+        # expected value of month position i at hour h: the datum itself / the mean over the month's days
+        exp = []
+        if inp['hourly']:
+            pos = 0
+            for m in months:
+                nd = _mdays(leap, m)
+                exp.append([sum(data[pos + d * 24 + h] for d in range(nd)) / float(nd) for h in range(24)])
+                pos += nd * 24
+        else:
+            exp = [data[i * 24:(i + 1) * 24] for i in range(nm)]
+        block = lines[j * per * nm:(j + 1) * per * nm]
+        for part in range(per):
+            for i in range(nm):
+                ln = block[part * nm + i]
+                if len(ln) != 25:
+                    return {'required': '25 vertices', 'observed': len(ln), 'sig': dict(sig, clause='line_shape')}
+                for h, (x, y) in enumerate(ln):
+                    ex = bx + i * xd + h * xd / 24.0
+                    if abs(x - ex) > tol:
+                        return {'required': 'line of %s (column %d) hour %d at x=%r' % (
+                            AnalysisPeriod.MONTHNAMES[months[i]], i, h, ex), 'observed': 'x=%r' % x,
+                            'sig': dict(sig, clause='line_column')}
+                    if part == per - 1:              # the data line (monthly-per-hour) / the mean line (hourly)
+                        v = exp[i][h % 24]
+                        ey = by + yd * (v - lo) / (hi - lo)
+                        if abs(y - ey) > 1e-7 * (1 + abs(ey) + abs(yd)):
+                            return {'required': 'month %d hour %d value %r at y=%r' % (months[i], h % 24, v, ey),
+                                    'observed': 'y=%r' % y, 'sig': dict(sig, clause='line_height')}
+        if inp['hourly']:                            # the band of a month lies in the month's column, around the mean
+            vs = meshes[j].vertices
+            for k, f in enumerate(meshes[j].faces):
+                i = k // 24
+                xs = [vs[a].x for a in f]
+                if min(xs) < bx + i * xd - tol or max(xs) > bx + (i + 1) * xd + tol:
+                    return {'required': 'band face %d inside column %d' % (k, i), 'observed': 'x=%r..%r' % (min(xs), max(xs)),
+                            'sig': dict(sig, clause='band_column')}
+    return None
+
+
 # ---- psychrometric chart: rare input classes (oracle only; the model is the SI hourly chart)
 
-PSY_VARIANTS = ('ip', 'daily', 'ts2', 'const_rh', 'const_t')
+PSY_VARIANTS = ('ip', 'daily', 'ts2', 'const_rh', 'const_t', 'const_rh_text', 'const_t_text', 'disc', 'text_dims')
 
 
 def _psy2_case(rng, variant=None):
@@ -2134,11 +2760,31 @@ def _psy2_case(rng, variant=None):
         q = rng.random()
         return float(rng.choice(range(0, 105, 5))) if q < 0.5 else round(rng.uniform(0, 100), 1)
     c = {'variant': variant, 'min': mn, 'max': mx, 't': [temp() for _ in range(n)], 'rh': [hum() for _ in range(n)]}
-    if variant == 'const_rh':
+    if variant in ('const_rh', 'const_rh_text'):
         c['rh'] = [rng.choice([0.0, 50.0, 100.0, 37.5])] * n
-    if variant == 'const_t':
+    if variant in ('const_t', 'const_t_text'):
         c['t'] = [float(rng.choice([mn, mx, mn + 3.5]))] * n
+    if variant.endswith('_text'):                  # (i) a number given as text: '5e1', ' 37.5 ', '+100'
+        c['text'] = rng.choice(['plain', 'exp', 'blank', 'plus'])
+    if variant == 'disc':                          # discontinuous hourly collections, any order, few hours
+        k = rng.choice([1, 2, 7, 20])
+        hrs = rng.sample(range(24), k)
+        if rng.random() < 0.5:
+            hrs.sort()
+        c['hours'] = hrs
+        c['t'], c['rh'] = c['t'][:k], c['rh'][:k]
     return c
+
+
+def _num_text(x, style):
+    x = float(x)
+    if style == 'exp':
+        return '%.10e' % x
+    if style == 'blank':
+        return '  %r ' % x
+    if style == 'plus':
+        return ('+' if x >= 0 else '') + repr(x)
+    return repr(x)
 
 
 def _build_psy2(c):
@@ -2154,6 +2800,13 @@ def _build_psy2(c):
         ap = AnalysisPeriod(1, 1, 0, 2 if n > 31 else 1, n if n <= 31 else n - 31, 23)
         t = DailyCollection(Header(Temperature(), 'C', ap), list(c['t']), list(range(1, n + 1)))
         rh = DailyCollection(Header(RelativeHumidity(), '%', ap), list(c['rh']), list(range(1, n + 1)))
+    elif v == 'disc':
+        from ladybug.datacollection import HourlyDiscontinuousCollection
+        from ladybug.dt import DateTime
+        ap = AnalysisPeriod(1, 1, 0, 1, 1, 23)
+        dts = [DateTime(1, 1, h) for h in c['hours']]
+        t = HourlyDiscontinuousCollection(Header(Temperature(), 'C', ap), tuple(c['t']), tuple(dts))
+        rh = HourlyDiscontinuousCollection(Header(RelativeHumidity(), '%', ap), list(c['rh']), list(dts))
     else:
         ap = AnalysisPeriod(1, 1, 0, 1, 1, 23, 2 if v == 'ts2' else 1)
         t = HourlyContinuousCollection(Header(Temperature(), 'C', ap), list(c['t']))
@@ -2162,6 +2815,13 @@ def _build_psy2(c):
         rh = c['rh'][0]
     if v == 'const_t':
         t = c['t'][0]
+    if v == 'const_rh_text':
+        rh = _num_text(c['rh'][0], c['text'])
+    if v == 'const_t_text':
+        t = _num_text(c['t'][0], c['text'])
+    if v == 'text_dims':                            # every number of the constructor that float() reads, as text
+        return PsychrometricChart(t, rh, '101325', None, x_dim='1.0', y_dim='1.5e3', min_temperature=c['min'],
+                                  max_temperature=c['max'], max_humidity_ratio='0.03')
     return PsychrometricChart(t, rh, 101325, None, min_temperature=c['min'], max_temperature=c['max'],
                               use_ip=(v == 'ip'))
 
@@ -2205,6 +2865,18 @@ def _check_psych2(inp):
     if faces != sorted(want):
         return {'required': 'one face per non-empty cell', 'observed': '%d faces' % len(faces),
                 'sig': dict(sig, clause='faces')}
+    # (f) a second chart of the same data built in this process, and a second read after the caller edited
+    # what a read returned, give the same cells
+    try:
+        _scramble(list(mtx))
+        ch2 = _build_psy2(inp)
+        if ch2.time_matrix != mtx or ch.time_matrix != mtx or list(ch2.hour_values) != hv or \
+                list(ch.hour_values) != hv:
+            return {'required': 'the same cells from a second chart / a second read', 'observed': str(ch2.hour_values)[:100],
+                    'sig': dict(sig, clause='alias_result')}
+    except Exception as e:
+        return {'required': 'a second chart', 'observed': 'raises %s' % type(e).__name__,
+                'sig': dict(sig, clause='alias_result', error=type(e).__name__)}
     return None
 
 
@@ -2306,13 +2978,16 @@ def _rarity(case):
     if op == 'hp':
         ap = inp['ap']
         wraps = _moy_of(ap[7], ap[0], ap[1], ap[2]) > _moy_of(ap[7], ap[3], ap[4], ap[5])
-        return (1, not ap[7], not wraps, not ap[6] > 1, not ap[2] > ap[5], not inp['rev'], len(inp['moys']) != 1)
+        return (1, not inp.get('hand'), not ap[7], not wraps, not ap[6] > 1, not ap[2] > ap[5], not inp['rev'],
+                len(inp['moys']) != 1)
     if op == 'psych2':
         return (2, inp['variant'])
     if op == 'wrose':
         return (3, inp['n'] in (4, 8, 16), not inp.get('sparse'))
     if op == 'bars':
-        return (4, not inp['period'][7], not inp['daily'], not inp['stack'])
+        return (4, not inp['period'][0] > inp['period'][3], not inp['period'][7], not inp['daily'], not inp['stack'])
+    if op == 'mlines':
+        return (4, not inp['period'][0] > inp['period'][3], not inp['period'][7], True, True)
     return (5, op)
 
 
@@ -2333,8 +3008,11 @@ def _order_slice(ctx, rng):
             else:
                 c2['ap'][6] = rng.choice([t for t in (1, 2, 4) if t != c2['ap'][6]])
             c2['moys'] = [] if c2['cont'] else _sparse(rng, period_moys(c2['ap']))
+            c2.pop('hand', None)                  # (the permutation belongs to the first data set)
             if len(period_moys(c2['ap'])) <= 1500:
                 out.append(['hp', c2])
+    for kind in HP_ORDERS:
+        out.append(['hp', _hp_hand_case(rng, kind)])
     for _ in range(6):
         out.append(['hhist', _hh_case(rng)])
     for _ in range(30):
@@ -2355,6 +3033,10 @@ def _order_slice(ctx, rng):
     for v in PSY_VARIANTS:
         out.append(['psych2', _psy2_case(rng, v)])
         out.append(['psych2', _psy2_case(rng, v)])
+    for _ in range(8):
+        out.append(['mlines', _ml_case(rng)])
+    for _ in range(3):
+        out.append(['whist', _wrh_case(rng, default_cut=True)])
     return out
 
 
@@ -2414,6 +3096,8 @@ def check_case(op, inp):
         return _check_psych(inp)
     if op == 'psych2':
         return _check_psych2(inp)
+    if op == 'mlines':
+        return _check_mlines(inp)
     if op == 'whist':
         return _check_whist(inp)
     if op == 'bhist':
@@ -2438,10 +3122,14 @@ def _oracle_cases(ctx):
     for c in HP_CORPUS:
         yield 'hp', c
     yield 'hp', HP_SAMEDAY
+    for c in HP_FAR_END:
+        yield 'hp', c
     for _ in range(600 if big else 120):
         yield 'hp', _hp_case(rng)
     for _ in range(150 if big else 20):
         yield 'hp', _same_day_number_case(rng, rev=rng.random() < 0.8)
+    for kind in HP_ORDERS * (10 if big else 3):
+        yield 'hp', _hp_hand_case(rng, kind)
     yield 'hist', {'bins': [0, 1, 2, 3], 'vals': [0, 0, 0.9, 1, 1.5, 1.99, 2, 3]}
     for _ in range(4000 if big else 500):
         yield 'hist', _hist_case(rng)
@@ -2459,6 +3147,8 @@ def _oracle_cases(ctx):
         yield 'bars', _bars_case(rng, False)
     for _ in range(800 if big else 100):
         yield 'bars', _bars_case(rng, True)
+    for _ in range(300 if big else 40):
+        yield 'mlines', _ml_case(rng)
     for _ in range(600 if big else 80):
         yield 'psych', _psy_case(rng)
     for _ in range(400 if big else 60):
@@ -2471,6 +3161,8 @@ def _oracle_cases(ctx):
         yield 'whist', _wrh_case(rng, n)
     for _ in range(1200 if big else 150):
         yield 'whist', _wrh_case(rng, big=rng.random() < 0.4)
+    for _ in range(12 if big else 8):
+        yield 'whist', _wrh_case(rng, default_cut=True)
     for _ in range(700 if big else 90):
         yield 'bhist', _bh_case(rng, rng.random() < 0.45)
     for _ in range(500 if big else 60):
@@ -2483,6 +3175,10 @@ def _oracle_cases(ctx):
 
 
 def _count_strata(ctx, op, inp):
+    if op in ('hp', 'hhist') and inp.get('hand'):
+        ctx.count('stratum:hp unvalidated, %s' % inp['hand']['kind'])
+    if op in ('hist', 'circ') and inp.get('shape'):
+        ctx.count('stratum:%s values as %s' % (op, inp['shape']))
     if op == 'hp':
         ctx.count('stratum:hp ts=%d' % inp['ap'][6])
         if inp['ap'][7]:
@@ -2498,11 +3194,16 @@ def _count_strata(ctx, op, inp):
             ctx.count('stratum:wrose all calm')
     elif op == 'psych2':
         ctx.count('stratum:psych ' + inp['variant'])
+    elif op == 'mlines':
+        ctx.count('stratum:mlines %s%s' % ('hourly' if inp['hourly'] else 'monthly-per-hour',
+                                           ' wrapping' if inp['period'][0] > inp['period'][3] else ''))
+    elif op in ('bars', 'bhist') and inp['period'][0] > inp['period'][3]:
+        ctx.count('stratum:bars wrapping period (%s)' % ('daily' if inp['daily'] else 'monthly'))
     elif op == 'bars' and any(lo == hi for lo, hi in inp['ranges'].values()):
         ctx.count('stratum:bars zero axis range')
 
 
-_FAMILY = {'hp': 'hp', 'hhist': 'hp', 'hist': 'wr', 'circ': 'wr', 'wrose': 'wr', 'whist': 'wr', 'bars': 'bars',
+_FAMILY = {'hp': 'hp', 'hhist': 'hp', 'mlines': 'bars', 'hist': 'wr', 'circ': 'wr', 'wrose': 'wr', 'whist': 'wr', 'bars': 'bars',
            'bhist': 'bars', 'psych': 'psy', 'psych2': 'psy', 'phist': 'psy'}
 
 
